@@ -6,7 +6,12 @@ import (
 	"bufio"
 	"encoding/hex"
 	"fmt"
+	"sort"
+	"strconv"
 	"strings"
+
+	"google.golang.org/protobuf/encoding/protowire"
+	"google.golang.org/protobuf/proto"
 )
 
 // decCase: Unmarshal `data` into a fresh message (or into `into` when given),
@@ -17,9 +22,11 @@ func (u *Universe) decCase(out *bufio.Writer, ti *TypeInfo, data []byte, tag str
 	fresh := ti.New()
 	st := safeUnmarshal(data, fresh)
 	pv := "-"
+	pvq := "-"
 	if !strings.HasPrefix(st, "PANIC") {
 		if v, err := u.read(ti, fresh); err == nil {
 			pv = v.String()
+			pvq = quietMsg(v, ti).String()
 		} else {
 			pv = "read-error:" + err.Error()
 		}
@@ -33,10 +40,197 @@ func (u *Universe) decCase(out *bufio.Writer, ti *TypeInfo, data []byte, tag str
 	if hex.EncodeToString(orig) != hex.EncodeToString(data) {
 		flags = append(flags, "input-modified")
 	}
+	// C02: same values as the reference implementation (float32 sNaN quieted: oracle API limit)
+	if st == "ok" && ost == "ok" {
+		if pvq == os {
+			flags = append(flags, "c02=ok")
+		} else {
+			flags = append(flags, "c02=bad")
+		}
+	}
+	if u.wellFormed(ti, orig) {
+		flags = append(flags, "wf=1")
+	} else {
+		flags = append(flags, "wf=0")
+	}
 	fmt.Fprintf(out, "dec\t%s\t%s\tx%s\t%s\t%s\t%s\t%s\t%s\t%s\n", typeRef(ti), ti.Key, hex.EncodeToString(orig), st, pv, ost, os, strings.Join(flags, ","), tag)
 }
 
+// validBytes: an encoding of a random message, rewritten by meaning-preserving rewrites
+func (u *Universe) validBytes(r *rng, ti *TypeInfo, st rwStats) []byte {
+	v := u.genMsg(r, ti, 'm', genOpts{depth: 3, unknownOK: true})
+	m, err := u.build(ti, v, buildOpts{})
+	if err != nil {
+		return nil
+	}
+	data, pan := safeMarshal(m)
+	if pan != "" {
+		return nil
+	}
+	// start from the reference encoder's bytes when available (differs for maps: explicit defaults)
+	if r.intn(2) == 0 {
+		if dm, err := u.toDyn(ti, quietMsg(normMsg(v, ti), ti)); err == nil {
+			if rb, err := (proto.MarshalOptions{Deterministic: true}).Marshal(dm); err == nil {
+				data = rb
+				st["from-reference-encoder"]++
+			}
+		}
+	}
+	recs, ok := u.parseRecs(ti, nil, data)
+	if !ok {
+		return data
+	}
+	n := r.intn(3)
+	for i := 0; i < n; i++ {
+		recs = u.rewrite(r, ti, nil, recs, st, 0)
+	}
+	return serialize(recs)
+}
+
 func init() {
+	// decv <seed> <n> [typefilter]: valid encodings closed under rewrites
+	register("decv", func(args []string, out *bufio.Writer) error {
+		seed, _ := strconv.ParseUint(args[0], 10, 64)
+		n, _ := strconv.Atoi(args[1])
+		filter := ""
+		if len(args) > 2 {
+			filter = args[2]
+		}
+		u, err := loadUniverse()
+		if err != nil {
+			return err
+		}
+		emitSchemas(u, out)
+		types := u.usableTypes(func(ti *TypeInfo) bool { return filter == "" || strings.Contains(ti.Key, filter) })
+		r := newRng(seed)
+		st := rwStats{}
+		for i := 0; i < n; i++ {
+			ti := types[i%len(types)]
+			cr := r.fork()
+			data := u.validBytes(cr, ti, st)
+			u.decCase(out, ti, data, "valid")
+		}
+		keys := []string{}
+		for k := range st {
+			keys = append(keys, k)
+		}
+		sort.Strings(keys)
+		for _, k := range keys {
+			fmt.Fprintf(out, "stat\t%s\t%d\n", k, st[k])
+		}
+		return nil
+	})
+	// decb <seed> <n>: malformed stream - prefixes, single-token corruptions, short token strings, random bytes
+	register("decb", func(args []string, out *bufio.Writer) error {
+		seed, _ := strconv.ParseUint(args[0], 10, 64)
+		n, _ := strconv.Atoi(args[1])
+		u, err := loadUniverse()
+		if err != nil {
+			return err
+		}
+		emitSchemas(u, out)
+		types := u.usableTypes(nil)
+		r := newRng(seed)
+		st := rwStats{}
+		for i := 0; i < n; i++ {
+			ti := types[i%len(types)]
+			cr := r.fork()
+			data := u.validBytes(cr, ti, st)
+			switch cr.intn(6) {
+			case 0, 1: // a prefix
+				if len(data) > 0 {
+					cut := cr.intn(len(data))
+					u.decCase(out, ti, data[:cut], "prefix")
+					continue
+				}
+			case 2: // flip/replace one byte
+				if len(data) > 0 {
+					d := append([]byte{}, data...)
+					p := cr.intn(len(d))
+					switch cr.intn(4) {
+					case 0:
+						d[p] ^= 0x80
+					case 1:
+						d[p] = byte(cr.u64())
+					case 2:
+						d[p] = (d[p] &^ 7) | byte(cr.intn(8)) // wire type bits, if this is a tag
+					default:
+						d[p]++
+					}
+					u.decCase(out, ti, d, "corrupt-byte")
+					continue
+				}
+			case 3: // corrupt one token: tag number to 0 / 2^29 / 2^31-1, length +-1, unbalanced group
+				recs, ok := u.parseRecs(ti, nil, data)
+				if ok && len(recs) > 0 {
+					x := recs[cr.intn(len(recs))]
+					d := corruptToken(cr, recs, x)
+					u.decCase(out, ti, d, "corrupt-token")
+					continue
+				}
+			case 4: // random bytes
+				k := cr.intn(12)
+				d := make([]byte, k)
+				for j := range d {
+					d[j] = byte(cr.u64())
+					if cr.intn(3) == 0 {
+						d[j] &= 0x1f
+					}
+				}
+				u.decCase(out, ti, d, "random")
+				continue
+			}
+			// short token strings over a small alphabet
+			d := shortTokens(cr, ti)
+			u.decCase(out, ti, d, "tokens")
+		}
+		return nil
+	})
+	// hist <seed> <n>: 1-4 Unmarshal calls into one message vs one call on the concatenation
+	register("hist", func(args []string, out *bufio.Writer) error {
+		seed, _ := strconv.ParseUint(args[0], 10, 64)
+		n, _ := strconv.Atoi(args[1])
+		u, err := loadUniverse()
+		if err != nil {
+			return err
+		}
+		emitSchemas(u, out)
+		types := u.usableTypes(nil)
+		r := newRng(seed)
+		st := rwStats{}
+		for i := 0; i < n; i++ {
+			ti := types[i%len(types)]
+			cr := r.fork()
+			k := 1 + cr.intn(4)
+			var chunks [][]byte
+			for j := 0; j < k; j++ {
+				chunks = append(chunks, u.validBytes(cr, ti, st))
+			}
+			u.histCase(out, ti, chunks)
+		}
+		return nil
+	})
+	register("hist-one", func(args []string, out *bufio.Writer) error {
+		u, err := loadUniverse()
+		if err != nil {
+			return err
+		}
+		ti := u.Types[args[0]]
+		if ti == nil {
+			return fmt.Errorf("unknown type %s", args[0])
+		}
+		var chunks [][]byte
+		for _, h := range strings.Split(args[1], ",") {
+			d, err := hex.DecodeString(strings.TrimPrefix(h, "x"))
+			if err != nil {
+				return err
+			}
+			chunks = append(chunks, d)
+		}
+		emitSchemas(u, out)
+		u.histCase(out, ti, chunks)
+		return nil
+	})
 	// dec-one <typekey> <hex>
 	register("dec-one", func(args []string, out *bufio.Writer) error {
 		u, err := loadUniverse()
@@ -55,4 +249,143 @@ func init() {
 		u.decCase(out, ti, data, "one")
 		return nil
 	})
+}
+
+// histCase: hist, typeref, gotype, x<a>,x<b>..., seq status, seq val, oneshot status, oneshot val, oracle status, oracle val, flags
+func (u *Universe) histCase(out *bufio.Writer, ti *TypeInfo, chunks [][]byte) {
+	m := ti.New()
+	seqSt := "ok"
+	var all []byte
+	hs := []string{}
+	for _, c := range chunks {
+		hs = append(hs, "x"+hex.EncodeToString(c))
+		all = append(all, c...)
+		if seqSt == "ok" {
+			seqSt = safeUnmarshal(c, m)
+		}
+	}
+	sv := "-"
+	if v, err := u.read(ti, m); err == nil {
+		sv = v.String()
+	}
+	one := ti.New()
+	oneSt := safeUnmarshal(all, one)
+	ov := "-"
+	ovq := "-"
+	if v, err := u.read(ti, one); err == nil {
+		ov = v.String()
+		ovq = quietMsg(v, ti).String()
+	}
+	rv, rst := u.oracleParse(ti, all)
+	rs := "-"
+	if rv != nil {
+		rs = rv.String()
+	}
+	flags := []string{}
+	if seqSt == "ok" && oneSt == "ok" && sv == ov {
+		flags = append(flags, "seq=ok")
+	} else {
+		flags = append(flags, "seq=bad")
+	}
+	if oneSt == "ok" && rst == "ok" && ovq == rs {
+		flags = append(flags, "ref=ok")
+	} else {
+		flags = append(flags, "ref=bad")
+	}
+	fmt.Fprintf(out, "hist\t%s\t%s\t%s\t%s\t%s\t%s\t%s\t%s\t%s\t%s\n", typeRef(ti), ti.Key, strings.Join(hs, ","), seqSt, sv, oneSt, ov, rst, rs, strings.Join(flags, ","))
+}
+
+// corruptToken serialises recs with record x corrupted in one way.
+func corruptToken(r *rng, recs []*wrec, x *wrec) []byte {
+	var b []byte
+	for _, y := range recs {
+		one := serialize([]*wrec{y})
+		if y != x {
+			b = append(b, one...)
+			continue
+		}
+		switch r.intn(6) {
+		case 0: // invalid field numbers
+			num := []uint64{0, 1 << 29, 1<<31 - 1, 1 << 31, 1<<32 + 5}[r.intn(5)]
+			_, _, n := protowire.ConsumeTag(one)
+			if n < 0 {
+				n = 1
+			}
+			b = protowire.AppendVarint(b, num<<3|uint64(y.typ))
+			b = append(b, one[n:]...)
+		case 1: // wrong wire type, same payload bytes
+			_, _, n := protowire.ConsumeTag(one)
+			if n < 0 {
+				n = 1
+			}
+			b = protowire.AppendVarint(b, uint64(y.num)<<3|uint64(r.intn(8)))
+			b = append(b, one[n:]...)
+		case 2: // length +1 / -1 (bytes records)
+			if y.typ == protowire.BytesType {
+				p := y.bytes
+				if y.hasKid {
+					p = serialize(y.kids)
+				}
+				b = protowire.AppendTag(b, y.num, y.typ)
+				d := uint64(len(p)) + 1
+				if r.intn(2) == 0 && len(p) > 0 {
+					d = uint64(len(p)) - 1
+				}
+				b = protowire.AppendVarint(b, d)
+				b = append(b, p...)
+			} else {
+				b = append(b, one[:len(one)-1]...)
+			}
+		case 3: // unbalanced group
+			b = protowire.AppendTag(b, y.num, protowire.StartGroupType)
+			b = append(b, one...)
+			if r.intn(2) == 0 {
+				b = protowire.AppendTag(b, y.num+1, protowire.EndGroupType)
+			}
+		case 4: // stray end group
+			b = append(b, one...)
+			b = protowire.AppendTag(b, y.num, protowire.EndGroupType)
+		default: // overlong varint (11 bytes) as tag
+			for i := 0; i < 10; i++ {
+				b = append(b, 0x80|one[0])
+			}
+			b = append(b, 0x01)
+			b = append(b, one[1:]...)
+		}
+	}
+	return b
+}
+
+// shortTokens: up to 3 tokens over an alphabet of field numbers (known, unknown, invalid) x wire types x tiny payloads
+func shortTokens(r *rng, ti *TypeInfo) []byte {
+	msg := &ti.S.Msgs[ti.MI]
+	nums := []uint64{0, 1, 2, 3, 16, 1<<29 - 1, 1 << 29}
+	for _, f := range msg.Fields {
+		nums = append(nums, uint64(f.Num))
+	}
+	var b []byte
+	k := 1 + r.intn(3)
+	for i := 0; i < k; i++ {
+		num := nums[r.intn(len(nums))]
+		typ := uint64(r.intn(8))
+		b = protowire.AppendVarint(b, num<<3|typ)
+		switch r.intn(8) {
+		case 0:
+		case 1:
+			b = append(b, 0)
+		case 2:
+			b = append(b, 1)
+		case 3:
+			b = append(b, 0x80)
+		case 4:
+			b = append(b, 2, 8, 1)
+		case 5:
+			b = append(b, 4, 0, 0, 0, 0)
+		case 6:
+			b = append(b, 0, 0, 0, 0, 0, 0, 0, 0)
+		default:
+			b = append(b, 0xff, 0xff, 0xff, 0xff, 0xff, 0xff, 0xff, 0xff, 0xff, byte(r.intn(3)))
+		}
+	}
+	return b
 }
